@@ -16,7 +16,9 @@
    The model is parameterised by a [variant]: the two places where the tree is known to be wrong
    and a repair is proposed (fixes/C11-*.patch).  [v_burn_pre = false] is the code that reads the
    supply AFTER burning, [true] the repaired order; [v_edit_keep = false] is EditBasket taking
-   the recorded amount from the proposal, [true] keeping the stored one.  The harness probes which
+   the recorded amount from the proposal, [true] keeping the stored one (committed as 68b9c08);
+   [v_upsert_skip = false] is AfterUpsertStakingPool storing an empty record under Id 1 when its
+   lookup fails, [true] skipping (fixes/C11-upsert-hook-skip.patch).  The harness probes which
    variant the tree implements; theorems are proved for the repaired variant and refuted, with
    witnesses, for the current one. *)
 From Sekai Require Import Base.Prelude Base.Dec.
@@ -28,7 +30,7 @@ Record basket := mkB {
   b_fee : dec; b_slip : dec; b_cap : dec; b_period : Z;
   b_mmin : Z; b_mmax : Z; b_bmin : Z; b_bmax : Z; b_smin : Z; b_smax : Z;
   b_md : bool; b_bd : bool; b_sd : bool }.
-Record variant := mkV { v_burn_pre : bool; v_edit_keep : bool }.
+Record variant := mkV { v_burn_pre : bool; v_edit_keep : bool; v_upsert_skip : bool }.
 Definition history := list (Z * Z).          (* (unix time, amount registered at that time) *)
 Record state := mkS { s_bk : basket; s_bal : Z -> Z -> Z; s_supply : Z;
                       s_hm : history; s_hb : history; s_hs : history }.
@@ -362,7 +364,7 @@ Definition step (v : variant) (s : state) (o : op) : outcome state :=
   | OEndBlock now =>
       let p := b_period (s_bk s) in
       Ok (mkS (s_bk s) (s_bal s) (s_supply s) (clear_old (s_hm s) now p) (clear_old (s_hb s) now p) (clear_old (s_hs s) now p))
-  | OUpsertHook se => Ok (if se then with_bk s shell else s)
+  | OUpsertHook se => Ok (if se && negb (v_upsert_skip v) then with_bk s shell else s)
   end.
 
 (* a failed message changes nothing *)
